@@ -114,7 +114,7 @@ def _plan_conversion(start: Unit, end: Unit) -> Plan:
     # the target's prefix is divided out last, after any scale offsets have been
     # applied in unprefixed units
     unprefixed = end.quantify()
-    unprefix: RoughPlan = [(1 / unprefixed.magnitude, One, One, 1)]
+    unprefix: RoughPlan = [(_inverse(unprefixed.magnitude), One, One, 1)]
     plan: RoughPlan = []
 
     start_factors = _splat(start)
@@ -129,7 +129,7 @@ def _plan_conversion(start: Unit, end: Unit) -> Plan:
         for ratio, start, end, exponent in _replace_factors(start_factors)
     ]
     plan += [
-        (1 / ratio, start, end, exponent)
+        (_inverse(ratio), start, end, exponent)
         for ratio, start, end, exponent in _replace_factors(end_factors)
     ]
 
@@ -228,7 +228,7 @@ def _replace_factors(factors: Dict[Dimension, List[Unit]]) -> RoughPlan:
                     factors[unit_dimension] = []
                 factors[unit_dimension].extend([unit] * abs(exponent))
 
-            plan.append((ratio**overall_sign, One, One, 1))
+            plan.append((_raised(ratio, overall_sign), One, One, 1))
 
     return plan
 
@@ -391,7 +391,7 @@ def _find_path_recursive(
 
 
 def _raised(number: Numeric, exponent: int) -> Numeric:
-    """number**exponent, for a path that is going to be memoised: a Decimal is raised in
+    """number**exponent, for a path or plan that is going to be memoised: a Decimal is raised in
     a context of its own, because the precision that happens to be in force when a
     path is searched for the first time must not stay behind in the memo (even
     `Decimal ** 1` rounds to the ambient precision)"""
@@ -402,6 +402,15 @@ def _raised(number: Numeric, exponent: int) -> Numeric:
             context.prec = max(context.prec, 60)
             return number**exponent
     return number**exponent
+
+
+def _inverse(number: Numeric) -> Numeric:
+    """1 / number, for a plan that is going to be memoised (see _raised)"""
+    if isinstance(number, Decimal):
+        with localcontext() as context:
+            context.prec = max(context.prec, 60)
+            return 1 / number
+    return 1 / number
 
 
 def _reduce_dimension(start: Unit, end: Unit) -> Tuple[int, Unit, Unit]:
